@@ -173,6 +173,8 @@ func C15(c *core.Ctx) {
 	// the close frame cannot be written while the read side is healthy and silent: the
 	// connection must be closed all the same and Listen must return
 	c15CloseFrameFails(c)
+	// the same judges on a real gorilla loopback pair (control-frame handlers, real closing handshake)
+	wsRealPeer(c, "c15")
 	// a custom ReadHandler that rejects a healthy message while the peer keeps talking: Listen goes on
 	// (or returns) but the reader must still end, the connection must still close promptly
 	c15HandlerRejects(c)
@@ -254,6 +256,9 @@ func C16(c *core.Ctx) {
 	c16HandlerError(c)
 	// every failure of the underlying write is reported by Write (whatever the error value)
 	wsWriteErrors(c, "c16")
+	// the same judges on a real gorilla loopback pair: frames of concurrent writers, a ping that arrives
+	// while a data frame is inside the underlying write, closing handshakes
+	wsRealPeer(c, "c16")
 	// free running under the race detector: the canary fields of the fake connection are plain
 	// variables touched by every underlying write / read
 	for it := 0; it < c.N(200, 5000); it++ {
